@@ -190,4 +190,17 @@ def specs_nof(tier):
     # conversion back: the word handed to sympy is the word the other contracts take as the meaning of a term
     for no, nt in ((0, 0), (1, 1), (2, 2), (3, 1), (2, 0)) + (((4, 1), (3, 2)) if tier == "thorough" else ()):
         s.append(("contracts.nof_wrappers", "unit_as_expr", {"nops": no, "nterms": nt, "timeout_ms": t}))
+    # conversion into number-ordered form: one level of the structural recursion per node kind
+    from contracts.nof_from_expr import KINDS as _FE_KINDS
+    for k in _FE_KINDS:
+        for og in (True, False):
+            s.append(("contracts.nof_from_expr", "unit_from_expr", {"kind": k, "operators_given": og, "timeout_ms": t}))
+    for k in ("same-operators", "other-operators", "convertible", "inconvertible"):
+        s.append(("contracts.nof_wrappers", "unit_eq", {"other_kind": k, "timeout_ms": t}))
+    s.append(("contracts.nof_wrappers", "unit_small_accessors", {"timeout_ms": t}))
+    # the constructor establishes the class invariant the other NOF units start from (counts per statistics, placeholders, term layout)
+    for lay in (["BosonOp", "SigmaMinus", "FermionOp"], ["BosonOp", "LadderOp", "LadderOp", "FermionOp", "FermionOp"], []):
+        for tk in ("dict", "pairs", "Tuple"):
+            for v in (False, True):
+                s.append(("contracts.nof_from_expr", "unit_new", {"layout": lay, "terms_kind": tk, "validate": v, "timeout_ms": t}))
     return s
